@@ -198,7 +198,8 @@ rf64_read_header (SF_PRIVATE *psf, int *blockalign, int *framesperblock)
 		psf_log_printf (psf, "%M : 0x%x (should be 0xFFFFFFFF)\n  %M\n", RF64_MARKER, WAVE_MARKER) ;
 
 	while (!done)
-	{
+	{	sf_count_t chunk_start = psf_binheader_tell (psf) ;
+
 		marker = chunk_size = 0 ;
 		psf_binheader_readf (psf, "em4", &marker, &chunk_size) ;
 
@@ -373,6 +374,12 @@ rf64_read_header (SF_PRIVATE *psf, int *blockalign, int *framesperblock)
 		*/
 		if (marker != data_MARKER && chunk_size >= psf->filelength)
 		{	psf_log_printf (psf, "*** Chunk size %u > file length %D. Exiting parser.\n", chunk_size, psf->filelength) ;
+			break ;
+			} ;
+
+		/* End of input, or a chunk size that takes the parser back to where it was. */
+		if (psf_binheader_tell (psf) <= chunk_start)
+		{	psf_log_printf (psf, "*** Chunk at position %D does not advance the parser. Exiting parser.\n", chunk_start) ;
 			break ;
 			} ;
 
